@@ -791,6 +791,18 @@ class Fragment:
         self.note('V-SPEC', 1, f'ghost text after loop #{ordinal}')
         return True
 
+    def insert_at_loop_end(self, ordinal, text):
+        """ghost text as the last statement of the body of the n-th loop."""
+        ls = self.loops()
+        if ordinal < 1 or ordinal > len(ls):
+            self._lost(f'loop #{ordinal}')
+            return False
+        _, b = ls[ordinal - 1]
+        e = self._src().match_close(b)
+        self.text = self.text[:e] + text + self.text[e:]
+        self.note('V-SPEC', 1, f'ghost text at the end of the body of loop #{ordinal}')
+        return True
+
     def add_loop_spec(self, ordinal, spec):
         ls = self.loops()
         if ordinal < 1 or ordinal > len(ls):
